@@ -133,7 +133,11 @@ def generate(run_seed: int, tier: str) -> dict:
     if swarm.random() < 0.3:
         names_ = [c_ for c_ in u["cols"] if c_.isidentifier() and u["cols"][c_]["kind"] in ("float", "int")]
         if len(names_) >= 2:
-            frecipes.append({"spec": {"__set__": names_[: rng.randint(2, min(5, len(names_)))]}, "form": "simple", "atoms": []})
+            pick_ = names_[: rng.randint(2, min(5, len(names_)))]
+            if rng.random() < 0.5:
+                frecipes.append({"spec": {"__set__": pick_}, "form": "simple", "atoms": []})
+            else:
+                frecipes.append({"spec": {"__termset__": " + ".join(pick_) + " - 1"}, "form": "simple", "atoms": []})
     ops: list[dict] = []
     sym: dict[str, dict] = {}  # symbolic pool: id -> {"kind": ..}
     counters = {"F": 0, "S": 0, "M": 0, "X": 0}
